@@ -52,7 +52,49 @@ const (
 	kPtss
 	kWithin
 	kNil
+	kPtsss
+	kInt
 )
+
+// Go types of the subset: Lean kind, Lean type, element type of a range loop
+type gtInfo struct {
+	k    xkind
+	lean string
+	elem string
+	name string // camel-case stem of generated per-type functions (pointBounds, multiLineStringLen, …)
+}
+
+var gtypes = map[string]gtInfo{
+	"Point":           {kPt, "Pt α", "", "point"},
+	"*Bounds":         {kBox, "Box α", "", ""},
+	"[]Point":         {kPts, "List (Pt α)", "Point", ""},
+	"Path":            {kPts, "List (Pt α)", "Point", "path"},
+	"MultiPoint":      {kPts, "List (Pt α)", "Point", "multiPoint"},
+	"LineString":      {kPts, "List (Pt α)", "Point", "lineString"},
+	"[]Path":          {kPtss, "List (List (Pt α))", "Path", ""},
+	"Polygon":         {kPtss, "List (List (Pt α))", "Path", "polygon"},
+	"MultiLineString": {kPtss, "List (List (Pt α))", "LineString", "multiLineString"},
+	"MultiPolygon":    {kPtsss, "List (List (List (Pt α)))", "Polygon", "multiPolygon"},
+	"int":             {kInt, "Nat", "", ""},
+	"bool":            {kBool, "Bool", "", ""},
+	"float64":         {kCoord, "α", "", ""},
+	"WithinStatus":    {kWithin, "WithinStatus", "", ""},
+	"Polygonal":       {kOptBox, "Option (Box α)", "", ""},
+}
+
+func typeName(x ast.Expr) string {
+	switch t := x.(type) {
+	case *ast.Ident:
+		return t.Name
+	case *ast.StarExpr:
+		return "*" + typeName(t.X)
+	case *ast.ArrayType:
+		if t.Len == nil {
+			return "[]" + typeName(t.Elt)
+		}
+	}
+	return "?"
+}
 
 type xerr struct{ msg string }
 
@@ -81,17 +123,31 @@ var known = map[string]fnInfo{
 
 type xenv struct {
 	vars map[string]xkind
-	recv string // receiver variable name ("" if none)
+	gty  map[string]string // Go type of each variable (method dispatch, range element types)
+	recv string            // receiver variable name ("" if none)
 	ret  xkind
-	mut  bool // function returns its receiver
+	mut  bool   // function returns its receiver
+	fall string // value of a statement list that runs off its end ("" = not allowed)
 }
 
 func (e *xenv) clone() *xenv {
-	n := &xenv{vars: map[string]xkind{}, recv: e.recv, ret: e.ret, mut: e.mut}
+	n := &xenv{vars: map[string]xkind{}, gty: map[string]string{}, recv: e.recv, ret: e.ret, mut: e.mut, fall: e.fall}
 	for k, v := range e.vars {
 		n.vars[k] = v
 	}
+	for k, v := range e.gty {
+		n.gty[k] = v
+	}
 	return n
+}
+
+func (e *xenv) bind(name, gt string) {
+	info, ok := gtypes[gt]
+	if !ok {
+		xfail("type %s outside the subset", gt)
+	}
+	e.vars[name] = info.k
+	e.gty[name] = gt
 }
 
 func leanName(s string) string {
@@ -179,6 +235,9 @@ func (e *xenv) expr(x ast.Expr) (string, xkind) {
 		return leanName(t.Name), k
 	case *ast.BasicLit:
 		if t.Kind == token.INT {
+			if e.ret == kInt {
+				return t.Value, kInt
+			}
 			return "(" + t.Value + " : α)", kCoord
 		}
 		xfail("literal %s", t.Value)
@@ -216,6 +275,9 @@ func (e *xenv) expr(x ast.Expr) (string, xkind) {
 			op := map[token.Token]string{token.LSS: "<", token.GTR: ">", token.LEQ: "≤", token.GEQ: "≥", token.EQL: "="}[t.Op]
 			return "decide (" + l + " " + op + " " + r + ")", kBool
 		case token.ADD, token.SUB, token.MUL, token.QUO:
+			if kl == kInt && kr == kInt && t.Op == token.ADD {
+				return "(" + l + " + " + r + ")", kInt
+			}
 			if kl != kCoord || kr != kCoord {
 				xfail("arithmetic %s on non-coordinates", t.Op)
 			}
@@ -299,9 +361,49 @@ func intSign(x ast.Expr) (int, bool) {
 }
 
 func (e *xenv) call(t *ast.CallExpr) (string, xkind) {
+	if fn, ok := t.Fun.(*ast.Ident); ok {
+		switch fn.Name {
+		case "NewBounds":
+			if len(t.Args) != 0 {
+				xfail("NewBounds arity")
+			}
+			return "newBounds", kBox
+		case "NewBoundsPoint":
+			if len(t.Args) != 1 {
+				xfail("NewBoundsPoint arity")
+			}
+			a, k := e.expr(t.Args[0])
+			if k != kPt {
+				xfail("NewBoundsPoint of a non-point")
+			}
+			return "(newBoundsPoint " + a + ")", kBox
+		case "len":
+			if len(t.Args) != 1 {
+				xfail("len arity")
+			}
+			a, k := e.expr(t.Args[0])
+			if k != kPts && k != kPtss && k != kPtsss {
+				xfail("len of a non-slice")
+			}
+			return a + ".length", kInt
+		}
+		xfail("call of %s outside the subset", fn.Name)
+	}
 	sel, ok := t.Fun.(*ast.SelectorExpr)
 	if !ok {
 		xfail("call of a non-method")
+	}
+	// Bounds() / Len() of one of the geometry types: dispatch on the static Go type of the receiver variable
+	if (sel.Sel.Name == "Bounds" || sel.Sel.Name == "Len") && len(t.Args) == 0 {
+		if id, ok := sel.X.(*ast.Ident); ok {
+			if gi, ok := gtypes[e.gty[id.Name]]; ok && gi.name != "" {
+				if sel.Sel.Name == "Bounds" {
+					return "(" + gi.name + "Bounds " + leanName(id.Name) + ")", kBox
+				}
+				return "(" + gi.name + "Len " + leanName(id.Name) + ")", kInt
+			}
+		}
+		xfail("%s() of a value whose static type is not one of the geometry types", sel.Sel.Name)
 	}
 	if pk, ok := sel.X.(*ast.Ident); ok && pk.Name == "math" {
 		switch sel.Sel.Name {
@@ -408,8 +510,8 @@ func noReturn(ss []ast.Stmt) {
 
 func (e *xenv) stmts(ss []ast.Stmt, ind string) string {
 	if len(ss) == 0 {
-		if e.mut {
-			return ind + leanName(e.recv)
+		if e.fall != "" {
+			return ind + e.fall
 		}
 		xfail("control reaches the end of the function without a return")
 	}
@@ -439,11 +541,44 @@ func (e *xenv) stmts(ss []ast.Stmt, ind string) string {
 		}
 		s := info.lean + " " + leanName(rid.Name)
 		for _, a := range c.Args {
-			as, _ := e.expr(a)
+			as, k := e.expr(a)
+			if sel.Sel.Name == "Extend" && k == kBox {
+				as = "(some " + as + ")" // a non-nil *Bounds where the parameter may be nil
+			}
 			s += " " + as
 		}
 		return ind + "let " + leanName(rid.Name) + " := " + s + "\n" + e.stmts(rest, ind)
+	case *ast.DeclStmt:
+		gd, ok := t.Decl.(*ast.GenDecl)
+		if !ok || gd.Tok != token.VAR || len(gd.Specs) != 1 {
+			xfail("declaration outside the subset")
+		}
+		vs := gd.Specs[0].(*ast.ValueSpec)
+		if len(vs.Values) != 0 || typeName(vs.Type) != "int" {
+			xfail("only `var i int` declarations are in the subset")
+		}
+		e2 := e.clone()
+		out := ""
+		for _, n := range vs.Names {
+			e2.bind(n.Name, "int")
+			out += ind + "let " + leanName(n.Name) + " : Nat := 0\n"
+		}
+		return out + e2.stmts(rest, ind)
 	case *ast.AssignStmt:
+		if t.Tok == token.ADD_ASSIGN {
+			id, ok := t.Lhs[0].(*ast.Ident)
+			if !ok || len(t.Lhs) != 1 || e.vars[id.Name] != kInt {
+				xfail("+= on something that is not an int variable")
+			}
+			sv := e.ret
+			e.ret = kInt
+			v, k := e.expr(t.Rhs[0])
+			e.ret = sv
+			if k != kInt {
+				xfail("+= of a non-int")
+			}
+			return ind + "let " + leanName(id.Name) + " := " + leanName(id.Name) + " + " + v + "\n" + e.stmts(rest, ind)
+		}
 		if t.Tok == token.DEFINE {
 			if len(t.Lhs) != 1 || len(t.Rhs) != 1 {
 				xfail("multiple := outside the subset")
@@ -505,26 +640,52 @@ func (e *xenv) stmts(ss []ast.Stmt, ind string) string {
 		if k, ok := t.Key.(*ast.Ident); !ok || k.Name != "_" {
 			xfail("range with an index variable")
 		}
-		xs, kx := e.expr(t.X)
-		var kv xkind
-		switch kx {
-		case kPts:
-			kv = kPt
-		case kPtss:
-			kv = kPts
-		default:
+		xid, ok := t.X.(*ast.Ident)
+		if !ok {
+			xfail("range over a non-variable")
+		}
+		gi, ok := gtypes[e.gty[xid.Name]]
+		if !ok || gi.elem == "" {
 			xfail("range over a non-slice")
 		}
-		if !e.mut {
-			xfail("range loop in a function that does not return its receiver")
-		}
 		noReturn(t.Body.List)
+		// the one variable the body updates is the accumulator of the fold
+		acc := ""
+		note := func(n string) {
+			if acc != "" && acc != n {
+				xfail("range body updates two variables (%s, %s)", acc, n)
+			}
+			acc = n
+		}
+		for _, st := range t.Body.List {
+			switch u := st.(type) {
+			case *ast.ExprStmt:
+				if c, ok := u.X.(*ast.CallExpr); ok {
+					if sl, ok := c.Fun.(*ast.SelectorExpr); ok {
+						if id, ok := sl.X.(*ast.Ident); ok {
+							note(id.Name)
+						}
+					}
+				}
+			case *ast.AssignStmt:
+				if r, _, ok := fieldPath(u.Lhs[0]); ok && u.Tok != token.DEFINE {
+					note(r)
+				}
+			}
+		}
+		if acc == "" || (e.vars[acc] != kBox && e.vars[acc] != kInt) {
+			xfail("range body without an accumulator")
+		}
 		v := t.Value.(*ast.Ident).Name
+		if v == acc {
+			xfail("range variable shadows the accumulator")
+		}
 		e2 := e.clone()
-		e2.vars[v] = kv
+		e2.bind(v, gi.elem)
+		e2.fall = leanName(acc)
 		body := e2.stmts(t.Body.List, ind+"  ")
-		b := leanName(e.recv)
-		return ind + "let " + b + " := " + xs + ".foldl (fun " + b + " " + leanName(v) + " =>\n" + body + ") " + b + "\n" + e.stmts(rest, ind)
+		b := leanName(acc)
+		return ind + "let " + b + " := " + leanName(xid.Name) + ".foldl (fun " + b + " " + leanName(v) + " =>\n" + body + ") " + b + "\n" + e.stmts(rest, ind)
 	case *ast.IfStmt:
 		if t.Init != nil {
 			xfail("if with an init statement")
@@ -581,37 +742,8 @@ func (e *xenv) stmts(ss []ast.Stmt, ind string) string {
 }
 
 func typeKind(x ast.Expr) (xkind, string, bool) {
-	switch t := x.(type) {
-	case *ast.Ident:
-		switch t.Name {
-		case "Point":
-			return kPt, "Pt α", true
-		case "bool":
-			return kBool, "Bool", true
-		case "float64":
-			return kCoord, "α", true
-		case "WithinStatus":
-			return kWithin, "WithinStatus", true
-		case "Polygonal":
-			return kOptBox, "Option (Box α)", true
-		}
-	case *ast.StarExpr:
-		if id, ok := t.X.(*ast.Ident); ok && id.Name == "Bounds" {
-			return kBox, "Box α", true
-		}
-	case *ast.ArrayType:
-		if t.Len == nil {
-			if id, ok := t.Elt.(*ast.Ident); ok {
-				switch id.Name {
-				case "Point":
-					return kPts, "List (Pt α)", true
-				case "Path":
-					return kPtss, "List (List (Pt α))", true
-				}
-			}
-		}
-	}
-	return 0, "", false
+	gi, ok := gtypes[typeName(x)]
+	return gi.k, gi.lean, ok
 }
 
 // mentionsNil reports whether the body compares identifier v with nil
@@ -636,16 +768,16 @@ type target struct {
 }
 
 func trFunc(fd *ast.FuncDecl, tg target) string {
-	e := &xenv{vars: map[string]xkind{}}
+	e := &xenv{vars: map[string]xkind{}, gty: map[string]string{}}
 	var params []string
 	if fd.Recv != nil {
 		f := fd.Recv.List[0]
-		k, ty, ok := typeKind(f.Type)
+		_, ty, ok := typeKind(f.Type)
 		if !ok || len(f.Names) != 1 {
 			xfail("receiver type")
 		}
-		e.vars[f.Names[0].Name] = k
-		if k == kBox {
+		e.bind(f.Names[0].Name, typeName(f.Type))
+		if typeName(f.Type) == "*Bounds" {
 			e.recv = f.Names[0].Name
 		}
 		params = append(params, "("+leanName(f.Names[0].Name)+" : "+ty+")")
@@ -674,32 +806,33 @@ func trFunc(fd *ast.FuncDecl, tg target) string {
 			xfail("box–box branch: not a type assertion")
 		}
 		src, ok1 := ta.X.(*ast.Ident)
-		k, _, ok2 := typeKind(ta.Type)
 		okv, ok3 := as.Lhs[1].(*ast.Ident)
 		cv, ok4 := ifs.Cond.(*ast.Ident)
-		if !ok1 || src.Name != pn || !ok2 || k != kBox || !ok3 || !ok4 || okv.Name != cv.Name {
+		if !ok1 || src.Name != pn || typeName(ta.Type) != "*Bounds" || !ok3 || !ok4 || okv.Name != cv.Name {
 			xfail("box–box branch: assertion is not `bp, ok := %s.(*Bounds); ok`", pn)
 		}
 		bp := as.Lhs[0].(*ast.Ident).Name
-		e.vars[bp] = kBox
+		e.bind(bp, "*Bounds")
 		params = append(params, "("+leanName(bp)+" : Box α)")
 		body = ifs.Body.List
 	} else {
 		for _, f := range paramFields {
-			k, ty, ok := typeKind(f.Type)
+			_, ty, ok := typeKind(f.Type)
 			if !ok {
 				xfail("parameter type outside the subset")
 			}
 			for _, n := range f.Names {
-				if k == kBox && mentionsNil(fd.Body, n.Name) {
-					k, ty = kOptBox, "Option (Box α)"
+				e.bind(n.Name, typeName(f.Type))
+				if typeName(f.Type) == "*Bounds" && mentionsNil(fd.Body, n.Name) {
+					e.vars[n.Name], ty = kOptBox, "Option (Box α)"
 				}
-				e.vars[n.Name] = k
 				params = append(params, "("+leanName(n.Name)+" : "+ty+")")
 			}
 		}
 	}
 	var retTy string
+	info, isKnown := known[fd.Name.Name]
+	isKnown = isKnown && (e.recv != "" || !info.recv)
 	switch {
 	case fd.Type.Results == nil || len(fd.Type.Results.List) == 0:
 		if e.recv == "" {
@@ -712,14 +845,17 @@ func trFunc(fd *ast.FuncDecl, tg target) string {
 			xfail("result type outside the subset")
 		}
 		e.ret, retTy = k, ty
-		if info, ok := known[fd.Name.Name]; ok && info.mut {
+		if isKnown && info.mut {
 			e.mut = true
 		}
 	default:
 		xfail("several results")
 	}
-	if info, ok := known[fd.Name.Name]; ok && info.mut != e.mut {
+	if isKnown && info.mut != e.mut {
 		xfail("%s no longer has the receiver-returning shape", fd.Name.Name)
+	}
+	if e.mut {
+		e.fall = leanName(e.recv)
 	}
 	b := e.stmts(body, "  ")
 	return fmt.Sprintf("def %s %s : %s :=\n%s\n", tg.lean, strings.Join(params, " "), retTy, b)
@@ -755,12 +891,28 @@ var targets = []target{
 	{"bounds.go", "*Bounds", "Intersection", "intersectionBox", true},
 	{"bounds.go", "*Bounds", "Area", "area", false},
 	{"bounds.go", "*Bounds", "Centroid", "centroid", false},
+	// Bounds() and Len() of the geometry types (a collection dispatches on interface values: not in the subset)
+	{"point.go", "Point", "Bounds", "pointBounds", false},
+	{"point.go", "Point", "Len", "pointLen", false},
+	{"multipoint.go", "MultiPoint", "Bounds", "multiPointBounds", false},
+	{"multipoint.go", "MultiPoint", "Len", "multiPointLen", false},
+	{"linestring.go", "LineString", "Bounds", "lineStringBounds", false},
+	{"linestring.go", "LineString", "Len", "lineStringLen", false},
+	{"multilinestring.go", "MultiLineString", "Bounds", "multiLineStringBounds", false},
+	{"multilinestring.go", "MultiLineString", "Len", "multiLineStringLen", false},
+	{"polygon.go", "Polygon", "Bounds", "polygonBounds", false},
+	{"polygon.go", "Polygon", "Len", "polygonLen", false},
+	{"multipolygon.go", "MultiPolygon", "Bounds", "multiPolygonBounds", false},
+	{"multipolygon.go", "MultiPolygon", "Len", "multiPolygonLen", false},
+	{"bounds.go", "*Bounds", "Len", "boundsLen", false},
 }
 
 const genHeader = `import GeomV.C04.Model
-/-! GENERATED by ` + "`harness/cmd/c04 extract`" + ` from bounds.go and point.go of the tree under test.
+/-! GENERATED by ` + "`harness/cmd/c04 extract`" + ` from bounds.go, point.go, multipoint.go, linestring.go,
+multilinestring.go, polygon.go, multipolygon.go of the tree under test.
 Do not edit; regenerated by every ` + "`bin/check C04`" + ` run (checks/C04.py pregen).
 Tie lemmas: Ties.lean; theorems about these definitions: Src.lean. -/
+set_option linter.unusedVariables false
 namespace GeomV.C04.Gen
 open GeomV GeomV.C04
 
